@@ -116,6 +116,9 @@ class Ctx:
         for (m, b, pre, variant, label) in unlisted:
             h = hashlib.md5(json.dumps([b.cfg, b.steps], sort_keys=True).encode()).hexdigest()[:12]
             path = os.path.join(rdir, h + ".json")
+            if shown >= 40:
+                shown += 1
+                continue
             with open(path, "w") as f:
                 json.dump(dict(property=self.pid, variant=variant, label=label, cfg=b.cfg, script=vlib.script_of(b, pre),
                                steps=b.steps, disagreement=m.sig()), f, indent=1)
